@@ -235,6 +235,71 @@ func TestGvcReplay(t *testing.T) {
 	(&Task{Task: "a("}).WildcardMatch("a(")
 }
 `}})
+	clauseScenarios = append(clauseScenarios,
+		clauseScenario{"output.(*groupWriter).close", "nw <= 1", scenario{pkgRel: "internal/output", what: "a group with a begin line reaches the shared stream in two Write calls, so another command's block can land between them",
+			src: `package output
+
+import (
+	"strings"
+	"sync"
+	"testing"
+
+	"github.com/go-task/task/v3/internal/templater"
+	"github.com/go-task/task/v3/taskfile/ast"
+)
+
+// gvcShared records every Write; the first Write of command A is held until command B has flushed completely,
+// which is one of the schedules the property quantifies over.
+type gvcShared struct {
+	mu     sync.Mutex
+	out    strings.Builder
+	writes int
+	hold   chan struct{}
+	held   bool
+}
+
+func (s *gvcShared) Write(p []byte) (int, error) {
+	s.mu.Lock()
+	s.out.Write(p)
+	s.writes++
+	first := !s.held
+	s.held = true
+	s.mu.Unlock()
+	if first && s.hold != nil {
+		<-s.hold
+	}
+	return len(p), nil
+}
+
+func TestGvcReplay(t *testing.T) {
+	shared := &gvcShared{hold: make(chan struct{})}
+	cache := &templater.Cache{Vars: ast.NewVars()}
+	g := Group{Begin: "BEGIN", End: "END"}
+	wa, _, closeA := g.WrapWriter(shared, shared, "", cache)
+	wb, _, closeB := g.WrapWriter(shared, shared, "", cache)
+	wa.Write([]byte("a-output\n"))
+	wb.Write([]byte("b-output\n"))
+	done := make(chan struct{})
+	go func() { closeA(nil); close(done) }()
+	for {
+		shared.mu.Lock()
+		h := shared.held
+		shared.mu.Unlock()
+		if h {
+			break
+		}
+	}
+	closeB(nil)
+	close(shared.hold)
+	<-done
+	got := shared.out.String()
+	okA := strings.Contains(got, "BEGIN\na-output\nEND\n")
+	okB := strings.Contains(got, "BEGIN\nb-output\nEND\n")
+	if !okA || !okB {
+		t.Fatalf("GVC-REPLAY-REPRODUCED: two grouped commands finishing together were interleaved on the shared stream:\n%s", got)
+	}
+}
+`}})
 	clauseScenarios = append(clauseScenarios, clauseScenario{"fingerprint.(*TimestampChecker).OnError", "stampPath", scenario{pkgRel: "", what: "method timestamp: a failed run leaves the stamp file, the next run reports the task up to date",
 		src: gvcHeader + `
 func TestGvcReplay(t *testing.T) {
